@@ -119,9 +119,10 @@ fn c09_too_long_field_rejected() {
             assert!(matches!(r, Err(Error::InsufficientMemory)), "C09: the longest legal string needs buffer space");
         }
     }
-    let mut ser = MqttSerializer::new(&mut buf);
-    let r = BinaryData(&ZEROS[..n]).serialize(&mut ser);
     if over {
+        // (the 65535-byte case would iterate byte by byte until the small buffer is full)
+        let mut ser = MqttSerializer::new(&mut buf);
+        let r = BinaryData(&ZEROS[..n]).serialize(&mut ser);
         assert!(matches!(r, Err(Error::Custom)), "C09: binary data longer than 65535 bytes cannot be encoded");
         assert!(ser.index == MAX_FIXED_HEADER_SIZE);
     }
